@@ -154,3 +154,4 @@ V('C04', 'link-target-prop-not-updated-when-inherited', 'edb/schema/links.py',
 from sa.selftest import VP  # noqa
 VP('C04', 'C04-e3', 'C04.R12', 'delcanon-key')
 VP('C04', 'C04-f1', 'C04.R13', 'walks-descendant-closure')
+VP('C04', 'C04-f3', 'C04.R14', 'isolated-escape-only')
